@@ -40,7 +40,7 @@ def plan(tier):
 def required(tier):
     return ["post:add_edge", "order_files_judged", "roundtrips_judged", "colon_in_Z_value", "tagless_link",
             "self_link", "both_end_declaration", "with_sequence_runs", "without_sequence_runs",
-            "complete_file_runs", "by_chrom_runs", "csv_rows_judged", "digit_in_tag_name", "mixed_case_sequences", "single_segment_chromosomes"]
+            "complete_file_runs", "by_chrom_runs", "csv_rows_judged", "digit_in_tag_name", "mixed_case_sequences", "single_segment_chromosomes", "chromosome_gt_100000_segments"]
 
 
 SIDE_L = {"+": 1, "-": 0}
@@ -107,14 +107,16 @@ def decorate(g, rng, sit, s_tags=True):
             sit["self_link"] += 1
     # drop parallel links that differ only in overlap / exact duplicates (out of domain)
     uniq = []
+    overlaps_of = {}  # canonical ends -> overlaps already kept
     for l in g.links:
         key = rg.RefGFA.link_ends(l[0], l[1], l[2], l[3])
         dirkey = (l[0], l[1], l[2], l[3])
         if dirkey in seen:
             continue
-        if any(rg.RefGFA.link_ends(u[0], u[1], u[2], u[3]) == key and u[4] != l[4] for u in uniq):
+        if any(ov != l[4] for ov in overlaps_of.get(key, ())):
             continue
         seen.add(dirkey)
+        overlaps_of.setdefault(key, set()).add(l[4])
         uniq.append(l)
     g.links[:] = uniq
     ends = collections.Counter(rg.RefGFA.link_ends(l[0], l[1], l[2], l[3]) for l in g.links)
@@ -171,10 +173,17 @@ def compare_graph(src, out, nodes, with_seq, viol, who, expect_bo=True):
                          "witness": {"lost": lost, "extra": extra}})
 
 
-def part_a(ctx, rng, casedir, sit, viol, sigs):
+def part_a(ctx, rng, casedir, sit, viol, sigs, big=False):
     nsingle = rng.choice([0, 0, 1, 2])
-    g = OC.gen_graph(rng, n_chrom=rng.choice([1, 2, 3]), scaffolds=rng.choice([2, 3, rng.randint(3, 12)]),
-                     id_style=rng.choice(["s", "name", "num"]), singletons=nsingle)
+    if big:
+        # one chromosome of more than 100 000 segments (a real chromosome has more)
+        g = OC.gen_graph(rng, n_chrom=1, scaffolds=rng.randint(55000, 57000), id_style="s", kinds=["snp", "ins", "del", "bridge"],
+                         end_style="leaf")
+        sit["chromosome_gt_100000_segments"] += int(len(g.nodes) > 100000)
+        nsingle = 0
+    else:
+        g = OC.gen_graph(rng, n_chrom=rng.choice([1, 2, 3]), scaffolds=rng.choice([2, 3, rng.randint(3, 12)]),
+                         id_style=rng.choice(["s", "name", "num"]), singletons=nsingle)
     if nsingle:
         sit["single_segment_chromosomes"] += nsingle
     # self-links in the four forms on random nodes
@@ -284,7 +293,7 @@ def run_case(ctx, rng, index, casedir):
     sit = collections.Counter()
     viol = []
     sigs = []
-    part_a(ctx, rng, casedir, sit, viol, sigs)
+    part_a(ctx, rng, casedir, sit, viol, sigs, big=(index == 0))
     part_b(ctx, rng, casedir, sit, viol, sigs)
     return {"sigs": sigs, "evals": 2, "situations": dict(sit), "violations": viol,
             "sample": {"note": "one order_gfa run on a decorated chain graph + one library round trip"}}
